@@ -180,6 +180,9 @@ type Runner func(t *testing.T, c explore.Case) explore.Result
 var runners = map[string]Runner{}
 
 // TestReplay re-executes the case in $VERIF_REPLAY and prints the oracle's verdict.
+// warmups: per property, a history that exercises every single letter once in this process.
+var warmups = map[string]func(t *testing.T){}
+
 func TestReplay(t *testing.T) {
 	c, ok := explore.ReplayCase()
 	if !ok {
@@ -188,6 +191,13 @@ func TestReplay(t *testing.T) {
 	run, ok := runners[c.Prop]
 	if !ok {
 		t.Fatalf("no runner for %s", c.Prop)
+	}
+	// Code under test may keep process-global state (caches, pools): a case that only fails after
+	// other cases have run in the same process is replayed behind the property's warm-up history.
+	if os.Getenv("VERIF_WARMUP") != "" {
+		if wu := warmups[c.Prop]; wu != nil {
+			wu(t)
+		}
 	}
 	r := run(t, c)
 	if r.Viol != "" {
